@@ -553,7 +553,8 @@ class NDNApp:
         final_name = enc.Name.normalize(final_name)
         future = aio.get_running_loop().create_future()
         # Handle implicit SHA256
-        if enc.Component.get_type(final_name[-1]) == enc.Component.TYPE_IMPLICIT_SHA256:
+        if (enc.Component.get_type(final_name[-1]) == enc.Component.TYPE_IMPLICIT_SHA256
+                and len(enc.Component.get_value(final_name[-1])) == 32):
             node_name = final_name[:-1]
             implicit_sha256 = enc.Component.get_value(final_name[-1])
         else:
@@ -606,7 +607,8 @@ class NDNApp:
 
     def _on_nack(self, name: enc.FormalName, nack_reason: int):
         # Interests with implicit SHA256 are stored under the name without the digest component
-        if name and enc.Component.get_type(name[-1]) == enc.Component.TYPE_IMPLICIT_SHA256:
+        if (name and enc.Component.get_type(name[-1]) == enc.Component.TYPE_IMPLICIT_SHA256
+                and len(enc.Component.get_value(name[-1])) == 32):
             node_name = name[:-1]
             implicit_sha256 = enc.Component.get_value(name[-1])
         else:
